@@ -74,6 +74,11 @@ pub(super) struct VacantEntry<'a> {
 
 pub(super) trait Resolve {
     fn resolve(&mut self, key: Key) -> Ptr<'_>;
+
+    /// The key of the stream the resolver itself points to, if any.
+    fn current_key(&self) -> Option<Key> {
+        None
+    }
 }
 
 // ===== impl Store =====
@@ -425,6 +430,10 @@ impl<'a> Resolve for Ptr<'a> {
             key,
             store: &mut *self.store,
         }
+    }
+
+    fn current_key(&self) -> Option<Key> {
+        Some(self.key)
     }
 }
 
